@@ -90,23 +90,26 @@ def gen_case(rng):
     used = set()
     for i in range(rng.choice([0, 0, 1, 1, 2, 2, 3])):
         kind = rng.choice(["glob", "glob", "literal", "missing"])
+        # the first letter is random so that the listed order of the patterns is independent of the
+        # lexicographic order of the files they match (a global sort instead of a per-pattern sort must show)
+        tag = rng.choice(["p", "a", "z", "m", "b"])
         matches = []
         if kind == "glob":
             names = rng.sample(NAMES, rng.choice([0, 1, 2, 2, 3, 3]))
             rng.shuffle(names)
             for nm in names:
                 blank = rng.random() < 0.08
-                matches.append({"name": "p%d_%s.yaml" % (i, nm), "doc": [] if blank else gen_doc(rng, decls, hot, tok, nonempty=True),
+                matches.append({"name": "%s%d_%s.yaml" % (tag, i, nm), "doc": [] if blank else gen_doc(rng, decls, hot, tok, nonempty=True),
                                 "fmt": rng.choice(FMTS), "blank": rng.choice(["", " \n", "\n\n"])})
-            pattern = "p%d_*.yaml" % i
+            pattern = "%s%d_*.yaml" % (tag, i)
         elif kind == "literal":
             nm = rng.choice(NAMES)
             blank = rng.random() < 0.08
-            matches.append({"name": "p%d_%s.yaml" % (i, nm), "doc": [] if blank else gen_doc(rng, decls, hot, tok, nonempty=True),
+            matches.append({"name": "%s%d_%s.yaml" % (tag, i, nm), "doc": [] if blank else gen_doc(rng, decls, hot, tok, nonempty=True),
                             "fmt": rng.choice(FMTS), "blank": ""})
             pattern = matches[0]["name"]
         else:
-            pattern = "p%d_missing.yaml" % i
+            pattern = "%s%d_missing.yaml" % (tag, i)
         patterns.append({"pattern": pattern, "matches": matches})
 
     envcfg = None
